@@ -50,6 +50,7 @@ type program struct {
 	probes     []*probeSpec
 	assign     []int // submitter goroutine of every top-level task
 	failing    int
+	syntax     int // failing commands that are malformed lines
 	bogus      int
 	nested     int
 }
@@ -166,6 +167,9 @@ func genProgram(rng *rand.Rand, kind string) *program {
 				if rng.Float64() < pFail {
 					fp := nt.Body[rng.Intn(len(nt.Body))].Probe
 					fp.Fail = []string{"ret", "append", "ret", "append", "syntax"}[rng.Intn(5)]
+					if fp.Fail == "syntax" {
+						p.syntax++
+					}
 					p.failing++
 				}
 				t.Body = append(t.Body, command{Nested: nt})
@@ -184,6 +188,9 @@ func genProgram(rng *rand.Rand, kind string) *program {
 			}
 			fp := own[rng.Intn(len(own))]
 			fp.Fail = []string{"ret", "append", "ret", "append", "syntax"}[rng.Intn(5)]
+			if fp.Fail == "syntax" {
+				p.syntax++
+			}
 			p.failing++
 		}
 	}
